@@ -26,11 +26,12 @@ spec_u32 wv_snap_h[8], wv_snap_t[8];
 unsigned long long wv_fb_left0;   /* bytes left in the stream when getFileHash started */
 #define WV_FB(p) ((filebuffer64 *)(p))
 #define WV_FILE_STATE(f) (f)->pos, (f)->eof
+#define WV_FB_STATE(fb) WV_ARR((fb)->b), (fb)->has_extra, (fb)->total, (fb)->now, (fb)->tail, (fb)->fp->pos, (fb)->fp->eof
 /* bytes the stream will still deliver: prefix block, buffered units from `now` on, the buffered tail, the rest of the file */
 #define WV_FB_LEFT(fb) (((fb)->has_extra ? 64ull : 0ull) + ((fb)->now <= (fb)->total ? 64ull * ((fb)->total - (fb)->now) + (fb)->tail : 0ull) + ((fb)->fp->len - (fb)->fp->pos))
 #define WV_FB_DONE(fb) ((fb)->now > (fb)->total)
 /* representation invariant: a buffer that is not full means the file is exhausted */
-#define WV_FB_OK(fb) ((fb)->fp->open && (fb)->fp->pos <= (fb)->fp->len && (fb)->fp->len < (1ull << 62) && (fb)->total <= filebuffer64__HBUF_SZ && (fb)->tail < 64 && \
+#define WV_FB_OK(fb) ((fb)->fp->open && (fb)->fp->pos <= (fb)->fp->len && (fb)->fp->len < (1ull << 58) && (fb)->total <= filebuffer64__HBUF_SZ && (fb)->tail < 64 && \
   (fb)->now <= (fb)->total + 1 && (fb)->now <= filebuffer64__HBUF_SZ && ((fb)->total == filebuffer64__HBUF_SZ ==> (fb)->tail == 0) && \
   (((fb)->total < filebuffer64__HBUF_SZ) ==> (fb)->fp->pos == (fb)->fp->len))
 #endif
